@@ -27,6 +27,8 @@ CATALOGUE = {
     'hdr-id-long': MUST_RAISE, 'dtime-range': MUST_RAISE, 'vrl-invalid': MUST_RAISE, 'hdr-seq': MUST_RAISE,
     'hdr-ident': MUST_RAISE, 'uvari-nonint': MUST_RAISE, 'sul-field-set-later': MUST_RAISE,
     'int-range-list': MUST_RAISE, 'dup-channel-name-in-frame': EITHER,
+    # value lists for which no single representation code exists (booleans; text mixed with numbers)
+    'no-common-code-list': EITHER,
 }
 
 
@@ -42,6 +44,7 @@ PRIMARY = {
     'window': ('how', ['to>rows', 'from<0', 'inverted', 'from>=rows', 'to<0', 'equal']),
     'ocs': ('how', ['below-vrl', 'fraction', 'negative', 'string']),
     'int-range-list': ('where', ['axis-coordinates', 'parameter-values', 'parameter-dimension', 'comment-none']),
+    'no-common-code-list': ('how', ['bools-parameter', 'text+number-axis', 'number+text-parameter', 'bool+number-axis']),
 }
 VARIANTS = [(k, None) for k in sorted(CATALOGUE) if k not in PRIMARY] + \
            [(k, v) for k in sorted(PRIMARY) for v in PRIMARY[k][1]]
@@ -90,6 +93,8 @@ def _invalidation_params(draw, inv):
         inv['v'] = draw(st.sampled_from([-1, -12, 10000, 123456]))
     elif k == 'dtime-range':
         inv['year'] = draw(st.sampled_from([1850, 1899, 2156, 2300]))
+    elif k == 'no-common-code-list':
+        inv['how'] = draw(st.sampled_from(PRIMARY['no-common-code-list'][1]))
     elif k == 'int-range-list':
         inv['n'] = draw(st.sampled_from([1, 2, 7, 8, 9, 20]))
         inv['where'] = draw(st.sampled_from(['axis-coordinates', 'parameter-values', 'parameter-dimension',
@@ -245,6 +250,15 @@ def apply(spec, inv):
             a.pop('hex', None)
             a.pop('special', None)
             a.setdefault('pat', [3, 1])
+    elif k == 'no-common-code-list':
+        how = inv.get('how') or 'bools-parameter'
+        v = {'bools-parameter': [True, False], 'text+number-axis': ['TOP', 2.5, 'BOTTOM'],
+             'number+text-parameter': [1, 'two'], 'bool+number-axis': [True, 2.5]}[how]
+        if how.endswith('axis'):
+            ops.append({'t': 'axis', 'name': 'AX-MIXED', 'attrs': {'coordinates': {'v': v, 'r': 'kw'}}})
+        else:
+            ops.append({'t': 'parameter', 'name': 'PAR-MIXED', 'attrs': {'values': {'v': v, 'r': 'kw'}}})
+        ops.append({'t': 'comment', 'name': 'AFTER-MIXED', 'attrs': {'text': {'v': ['after'], 'r': 'kw'}}})
     elif k == 'empty-list':
         ops.append({'t': 'comment', 'name': 'EMPTY', 'attrs': {'text': {'v': [], 'r': 'kw'}}})
         ops.append({'t': 'comment', 'name': 'AFTER', 'attrs': {'text': {'v': ['after'], 'r': 'kw'}}})
